@@ -57,6 +57,15 @@ static EPOCH: AtomicU32 = AtomicU32::new(0);
 pub static TIMEOUT_US: AtomicU64 = AtomicU64::new(3_000_000);
 pub static DELAY_US: AtomicU64 = AtomicU64::new(0);
 pub static SETTLE_TIMEOUTS: AtomicU32 = AtomicU32::new(0);
+/// the controller itself makes no futex calls (polls instead): used when futex calls of the
+/// code under test are counted / failed by strace injection
+pub static NOFUTEX: AtomicU32 = AtomicU32::new(0);
+/// arrivals at JOIN_BEFORE_READ_RESULT / DROP_BEFORE_FREE_BLOCK while the exit word was not 0:
+/// the wait on the exit word returned although the kernel has not reported the thread's exit
+const MAXEARLY: usize = 64;
+static mut EARLY: [u32; MAXEARLY * 3] = [0; MAXEARLY * 3];
+static EARLY_N: AtomicUsize = AtomicUsize::new(0);
+pub static EARLY_TOTAL: AtomicU32 = AtomicU32::new(0);
 
 static mut GT: [u32; MAXG] = [0; MAXG];
 static mut GT_TID: [u32; MAXG] = [0; MAXG];
@@ -236,7 +245,17 @@ pub fn ctx_of(tid: u32) -> (u32, u32) {
 
 fn bump() {
     EPOCH.fetch_add(1, SeqCst);
-    sys::futex_wake_all(&EPOCH);
+    if NOFUTEX.load(SeqCst) == 0 {
+        sys::futex_wake_all(&EPOCH);
+    }
+}
+
+fn wait_epoch(ep: u32) {
+    if NOFUTEX.load(SeqCst) == 0 {
+        sys::futex_wait_timeout(&EPOCH, ep, 2000);
+    } else {
+        sys::sleep_us(100);
+    }
 }
 
 /// The gate function installed with `tiny_std::verif::set_gate_fn`.
@@ -275,6 +294,23 @@ pub fn gate(id: u32, block: usize) {
             None => fail("gate-with-unknown-block", 0xff, id),
         }
     };
+    if id == 11 || id == 22 {
+        // post-condition of the wait on the exit word (the block is still allocated here:
+        // only the caller frees it, after this gate)
+        let word = unsafe { ((block + 4) as *const u32).read_volatile() };
+        if word != 0 {
+            EARLY_TOTAL.fetch_add(1, SeqCst);
+            let k = EARLY_N.fetch_add(1, SeqCst);
+            if k < MAXEARLY {
+                unsafe {
+                    let e = core::ptr::addr_of_mut!(EARLY) as *mut u32;
+                    e.add(k * 3).write(ord as u32);
+                    e.add(k * 3 + 1).write(id);
+                    e.add(k * 3 + 2).write(word);
+                }
+            }
+        }
+    }
     // the handle owner is one actor (the main thread) whatever block it works on
     let me = if is_t { (ord as u32) << 1 | 1 } else { H_ACTOR };
     match MODE.load(SeqCst) {
@@ -388,7 +424,7 @@ fn wait_turn(ord: u32, id: u32, me: u32, tid: u32) {
         if busy == 2 {
             sys::sleep_us(30);
         } else {
-            sys::futex_wait_timeout(&EPOCH, ep, 2000);
+            wait_epoch(ep);
         }
     }
 }
@@ -423,7 +459,7 @@ pub fn finish() -> usize {
             if st & 3 == 2 {
                 sys::sleep_us(30);
             } else {
-                sys::futex_wait_timeout(&EPOCH, ep, 2000);
+                wait_epoch(ep);
             }
         }
     }
@@ -449,7 +485,26 @@ pub fn wait_all_gone(tmo: u64) -> usize {
     }
 }
 
+pub fn dump_early() {
+    let n = core::cmp::min(EARLY_N.swap(0, SeqCst), MAXEARLY);
+    for k in 0..n {
+        let (o, g, w) = unsafe {
+            let e = core::ptr::addr_of!(EARLY) as *const u32;
+            (e.add(k * 3).read(), e.add(k * 3 + 1).read(), e.add(k * 3 + 2).read())
+        };
+        out::s("early ");
+        out::u(o as u64);
+        out::sp();
+        out::u(g as u64);
+        out::sp();
+        out::x(w as u64);
+        out::nl();
+    }
+    out::line("early_total", &[EARLY_TOTAL.load(SeqCst) as u64]);
+}
+
 pub fn dump_ids() {
+    dump_early();
     for o in 0..NBLOCKS.load(SeqCst) {
         out::s("block ");
         out::u(o as u64);
